@@ -138,6 +138,8 @@ def _extint_cases(draw, tier):
         case["metric"] = metric
         if metric in ("naive", "fixed"):
             case["num_streams"] = draw(st.integers(1, N))
+            case["cfg_dict_reused"] = draw(st.sampled_from(
+                [None, None] + [x for x in range(1, N + 1)]))
         if metric == "effective_throughput":
             case["mod"] = draw(st.sampled_from(_MODS))
             case["packet_length"] = draw(st.sampled_from([1, 8, 60, 120,
@@ -402,8 +404,14 @@ def _check_extint(case, ctx):
         obj.pe = pe
     if variant != "whitening":
         if metric in ("naive", "fixed"):
-            obj.set_ext_int_handling_metric(
-                metric, {"num_streams": int(case["num_streams"])})
+            cfg_dict = {"num_streams": int(case["num_streams"])}
+            obj.set_ext_int_handling_metric(metric, cfg_dict)
+            if case.get("cfg_dict_reused"):
+                # the caller prepares the same dictionary for its next
+                # object (a loop over stream counts); this object keeps the
+                # count it was configured with
+                ctx.label("config_dict_reused")
+                cfg_dict["num_streams"] = int(case["cfg_dict_reused"])
         elif metric == "effective_throughput":
             obj.set_ext_int_handling_metric(
                 metric, {"modulator": _modulator(case["mod"]),
